@@ -6,21 +6,29 @@ voting) built by harness/c08_model.cc from hand-made programs and generated trai
 training rows and unseen query rows; the Lean model (hardware doubles, c08_driver) gets the
 interpreter's per-member outputs and must produce the same labels, confidence bits, accuracy and
 training fitness.  The harness also drives a random copy / assign / move / destroy / serialize
-history of every model object under ASan (this clause is carried by the harness alone), and
-every answer is judged by the property's own oracle in Python.
+history of every model object under ASan, and every answer is judged by the property's own oracle
+in Python.  harness/c08_routes.cc obtains the model through every public ROUTE (each evaluator's
+lambdify, constrained_evaluator / evaluator_proxy in front of it, src_search::lambdify with and
+without validation data and with each validation strategy, the model behind the summary of
+src_search::run) and applies to each the lifetime steps on the ORIGINAL individual (overwritten,
+moved from, destroyed) and the comparison with the classifier built from the TRAINING data /
+the score of the TRAINING evaluator.
 """
 import glob
 import json
 import math
 import os
 import struct
+import sys
 from fractions import Fraction
 
 from vlib import common as C
 
+TMPDIR = os.path.join(C.BUILD, "c08_tmp")
 DMAX = 1.7976931348623157e308
 DMIN = 2.0 ** -1022
 EPS2 = 2.0 * 2.0 ** -52
+REG_EVAS = ("mae", "rmae", "mse", "count")
 PROGS1 = ["x1", "x1", "x1", "x2", "div", "ln", "add", "sub", "mul", "abs", "neg", "mulbig", "big", "tiny"]
 
 
@@ -162,6 +170,59 @@ def gen_cases(chk, rng):
     return lines
 
 
+def gen_routes(chk, rng):
+    """models obtained through every public route (see harness/c08_routes.cc)"""
+    g = Gen(rng)
+    quick = chk.tier == "quick"
+    lines = []
+    n = 1300 if quick else 6000
+    for i in range(n):
+        eva = ["mae", "dyn", "gau", "rmae", "bin", "mse", "gau", "count", "dyn"][i % 9]
+        reg = eva in REG_EVAS
+        team = rng.chance(0.35)
+        prog = g.prog(team)
+        prog2 = g.prog(team)
+        while prog2 == prog:
+            prog2 = g.prog(team)
+        mode = rng.choice(["direct", "direct", "constrained", "search", "search", "search", "run", "run"])
+        validator = rng.choice(["asis", "asis", "holdout", "dss"])
+        cache = rng.choice([0, 6, 16])
+        xslot = rng.choice([1, 2, 3, 10])
+        ncl = 0 if reg else 2 if eva == "bin" else rng.choice([2, 2, 3, 4])
+        style = rng.below(7)
+        pu = rng.choice([0.0, 0.0, 0.05, 0.3])
+
+        def rows(k, every_class):
+            out = []
+            for j in range(k):
+                x1, x2 = g.inputs(style, pu)
+                if reg:
+                    y = g.dbl(style if style < 4 else None)
+                    if rng.chance(0.4) and x1 is not None:
+                        y = x1
+                    out.append((tok(y), x1, x2))
+                else:
+                    c = j if (every_class and j < ncl) else rng.below(ncl)
+                    out.append((str(c), x1, x2))
+            for j in range(len(out) - 1, 0, -1):
+                k2 = rng.below(j + 1)
+                out[j], out[k2] = out[k2], out[j]
+            return out
+        ntrain = max(rng.between(3, 30 if quick else 80), ncl + 1)
+        tr = rows(ntrain, True)
+        va = [] if rng.chance(0.35) else rows(max(rng.between(2, 14), ncl), False)
+        qs = []
+        for j in range(rng.between(1, 8)):
+            if rng.chance(0.3):
+                qs.append((g.dbl(rng.choice([4, 5, 6])), g.dbl(rng.choice([4, 5, 6]))))
+            else:
+                qs.append(g.inputs(rng.below(7), rng.choice([0.0, 0.2])))
+        f = lambda rs: f"{len(rs)} " + " ".join(f"{y} {tok(a)} {tok(b)}" for y, a, b in rs)
+        lines.append(f"route {eva} {xslot} {prog} {prog2} {validator} {mode} {cache} {rng.below(1 << 30)} "
+                     f"{f(tr)} {f(va)} {len(qs)} " + " ".join(f"{tok(a)} {tok(b)}" for a, b in qs))
+    return lines
+
+
 # ---------------------------------------------------------------------------
 
 class Parsed:
@@ -175,27 +236,44 @@ def parse(line, cpp):
     if not c or c[0] != "ok":
         return None
     p = Parsed()
-    p.kind, p.comp, p.xslot, p.prog = t[0], t[1], int(t[2]), t[3]
-    p.ntrain = int(t[5])
-    p.ys = [t[6 + 3 * i] for i in range(p.ntrain)]
-    qat = 6 + 3 * p.ntrain
-    p.nq = int(t[qat])
+    p.route = None
+    p.extra = {}
+    if t[0] == "route":
+        p.eva, p.xslot, p.prog = t[1], int(t[2]), t[3]
+        p.kind = "reg" if p.eva in REG_EVAS else p.eva
+        p.comp = "wta" if (p.prog.startswith("t:") and p.kind != "reg") else "-"
+        p.route = {"route": t[6], "validator": t[5], "cache": int(t[7]), "eva": p.eva}
+        p.ntrain = int(c[c.index("nt") + 1])
+        p.nq = int(c[c.index("nq") + 1])
+        p.ys = []
+        if p.kind == "reg":
+            yi = c.index("ys")
+            p.ys = c[yi + 1:yi + 1 + p.ntrain]
+        for key in ("sacc", "racc", "tfile"):
+            if key in c:
+                p.extra[key] = c[c.index(key) + 1]
+    else:
+        p.kind, p.comp, p.xslot, p.prog = t[0], t[1], int(t[2]), t[3]
+        p.eva = "mae" if p.kind == "reg" else p.kind
+        p.ntrain = int(t[5])
+        p.ys = [t[6 + 3 * i] for i in range(p.ntrain)]
+        qat = 6 + 3 * p.ntrain
+        p.nq = int(t[qat])
     p.n = p.ntrain + p.nq
     p.m = int(c[2])
     mi = c.index("mem")
     p.mem = c[mi + 1:mi + 1 + p.m * p.n]
-    li = c.index("labels")
     ci = c.index("classes")
-    p.labels = c[li + 1:ci]
+    p.labels = c[c.index("labels") + 1:ci] if "labels" in c[:ci] else []
     p.classes = int(c[ci + 1])
     ai = c.index("ans")
     acc_i = c.index("acc", ai)
-    p.ans = c[ai + 1:acc_i]
+    p.ans = [x for x in c[ai + 1:acc_i] if x != "MISMATCH"]
     p.acc = c[acc_i + 1]
     p.fit = c[c.index("fit", acc_i) + 1]
-    hi = c.index("hist", acc_i)
+    hi = c.index("life" if p.route else "hist", acc_i)
     p.hist = " ".join(c[hi + 1:])
-    p.flags = [x for x in c if x in ("MISMATCH", "LAMBDIFY-DIFF", "LAMBDIFY-NULL")]
+    p.flags = [x for x in c if x in ("MISMATCH", "LAMBDIFY-DIFF", "LAMBDIFY-NULL", "ROUTE-DIFF", "ROUTE-NULL", "ROUTE-TYPE")]
     return p
 
 
@@ -205,8 +283,10 @@ def lean_request(line, cpp):
     p = parse(line, cpp)
     if p is None:
         return None
+    if p.ntrain == 0 or "ROUTE-NULL" in p.flags:
+        return None          # a model fitted on no example at all: left to the oracle
     if p.kind == "reg":
-        return f"reg {'t' if p.prog.startswith('t:') else 'i'} {p.m} {p.ntrain} {p.nq} " + " ".join(p.ys + p.mem)
+        return f"regf {p.eva} {'t' if p.prog.startswith('t:') else 'i'} {p.m} {p.ntrain} {p.nq} " + " ".join(p.ys + p.mem)
     return f"{p.kind} {p.comp} {p.classes} {p.xslot} {p.m} {p.ntrain} {p.nq} " + " ".join(p.labels + p.mem)
 
 
@@ -216,10 +296,7 @@ def cpp_canon(line, cpp):
     p = parse(line, cpp)
     if p is None:
         return cpp
-    s = "ans " + " ".join(p.ans) + " acc " + p.acc
-    if p.kind != "reg":
-        s += " fit " + p.fit
-    return s
+    return "ans " + " ".join(p.ans) + " acc " + p.acc + " fit " + p.fit
 
 
 # ---------------------------------------------------------------------------
@@ -364,6 +441,53 @@ def ref_predict(p, mem):
     return res
 
 
+def ref_err(eva, a, t):
+    """the four documented error functors of the sum-of-errors evaluators (a = model value or None)"""
+    pen = DMAX / 100.0
+    if eva == "mae":
+        if a is None:
+            return pen
+        e = abs(a - t)
+        return e if math.isfinite(e) else pen
+    if eva == "mse":
+        if a is None:
+            return pen
+        d = a - t
+        try:
+            e = d * d
+        except OverflowError:
+            e = float("inf")
+        return e if math.isfinite(e) else pen
+    if eva == "count":
+        return 0.0 if (a is not None and abs(a - t) < EPS2) else 1.0
+    if a is None:
+        return 200.0
+    delta = abs(t - a)
+    if delta <= 10.0 * DMIN:
+        return 0.0
+    sm = abs(a) + abs(t)
+    try:
+        e = 200.0 * delta / sm
+    except (OverflowError, ZeroDivisionError):
+        e = float("nan")
+    if math.isfinite(sm) and math.isfinite(e):
+        return e
+    den = abs(a) / 2.0 + abs(t) / 2.0
+    try:
+        e2 = 100.0 * (delta / den)
+    except (OverflowError, ZeroDivisionError):
+        e2 = float("nan")
+    return e2 if e2 <= 200.0 else 200.0
+
+
+def ref_reg_fitness(eva, vals, targets):
+    avg, n = 0.0, 0.0
+    for a, t in zip(vals, targets):
+        n += 1.0
+        avg += (ref_err(eva, a, t) - avg) / n
+    return -avg
+
+
 def oracle(line, cpp):
     """the property itself, judged on the harness answer alone"""
     bad = []
@@ -381,11 +505,37 @@ def oracle(line, cpp):
     if p is None:
         return bad
     tags = {"model": p.kind, "team": p.m > 1 or p.prog.startswith("t:"), "comp": p.comp}
-    if not p.hist.startswith("ok"):
+    via = ""
+    if p.route:
+        tags.update(route=p.route["route"], validator=p.route["validator"], eva=p.route["eva"])
+        via = f" obtained through route `{p.route['route']}` (evaluator {p.route['eva']}, validation strategy " \
+              f"{p.route['validator']}, cache_size {p.route['cache']})"
+        if "ROUTE-NULL" in p.flags:
+            return [(f"{p.kind} model{via}: the route returned no model", dict(tags, kind="route-null"))]
+        if p.hist.startswith("DIFF"):
+            bad.append((f"{p.kind} model{via}: its predictions changed {p.hist[5:]} (the model must own its individual)",
+                        dict(tags, kind="lifetime")))
+        if p.ntrain == 0 and p.kind in ("dyn", "gau"):     # reg / bin models do not depend on the training data
+            bad.append((f"{p.kind} model{via}: after the run the training set is EMPTY, the model handed out (and the "
+                        f"accuracy stored in the summary) belongs to a classifier fitted on no example at all",
+                        dict(tags, kind="empty-training")))
+        if "sacc" in p.extra and p.extra.get("racc") not in (None, "-") and p.extra["sacc"] != p.extra["racc"]:
+            bad.append((f"{p.kind} model{via}: the summary reports accuracy {untok(p.extra['sacc'])!r}, the model built from "
+                        f"the individual and the training set scores {untok(p.extra['racc'])!r} on the same examples",
+                        dict(tags, kind="summary-accuracy")))
+        if p.extra.get("tfile") == "DIFF":
+            bad.append((f"{p.kind} model{via}: the predictions written to the test file differ from those of the model "
+                        f"built from the best individual and the training set", dict(tags, kind="test-file")))
+        if p.ntrain == 0:
+            return bad
+    elif not p.hist.startswith("ok"):
         bad.append((f"{p.kind} model: predictions changed along a copy/assign/move/destroy/serialize history: {p.hist}",
                     dict(tags, kind="history")))
     for fl in p.flags:
-        bad.append((f"{p.kind} model: {fl} (operator() vs tag(), or the evaluator's lambdify() model differs)",
+        if fl == "ROUTE-TYPE":
+            continue      # structural (reported as a broken tie when nothing concrete fails)
+        bad.append((f"{p.kind} model{via}: {fl} (operator() vs tag(); the evaluator's lambdify() model / the route's model "
+                    f"differs from the model constructed directly from the individual and the training set)",
                     dict(tags, kind=fl.lower())))
     mem = [[untok(x) for x in p.mem[k * p.n:(k + 1) * p.n]] for k in range(p.m)]
     if p.kind == "reg":
@@ -431,7 +581,14 @@ def oracle(line, cpp):
         tg = [untok(y) for y in p.ys]
         ok = sum(1 for i in range(p.ntrain) if vals[i] is not None and abs(vals[i] - tg[i]) < EPS2)
         if tok(ok / p.ntrain) != p.acc:
-            bad.append((f"reg model: accuracy {untok(p.acc)!r}, but {ok} of {p.ntrain} rows match", dict(tags, kind="accuracy")))
+            bad.append((f"reg model{via}: accuracy {untok(p.acc)!r}, but {ok} of {p.ntrain} rows match", dict(tags, kind="accuracy")))
+        if p.fit not in ("-", "nan") and not p.fit.startswith("size"):
+            # the same function the TRAINING evaluator scored: its fitness recomputed from the model's answers
+            want = ref_reg_fitness(p.eva, vals[:p.ntrain], tg)
+            fit = untok(p.fit)
+            if not (abs(fit - want) <= 1e-9 * max(1.0, abs(want))):
+                bad.append((f"{p.eva} evaluator scored {fit!r} on the training set, the model{via} is worth {want!r}",
+                            dict(tags, kind="evaluator")))
         return bad
     lab = [int(x) for x in p.labels]
     al = [int(p.ans[2 * i]) for i in range(p.n)]
@@ -487,63 +644,112 @@ def oracle(line, cpp):
     return bad
 
 
+def exe_for(exes, line):
+    return exes[1] if line.startswith("route ") else exes[0]
+
+
+def run_h(exe, lines):
+    return C.run_lines(exe, lines, env={"C08_TMPDIR": TMPDIR})
+
+
 def shrink(exe, line, sig):
-    """drop training rows / queries while the oracle still reports the same kind of failure"""
+    """drop training rows / validation rows / queries while the oracle still reports the same kind of failure"""
     t = line.split()
     if t[0] == "disc":
         return line
-    ntrain = int(t[5])
-    head = t[:5]
-    rows = [t[6 + 3 * i:9 + 3 * i] for i in range(ntrain)]
-    qat = 6 + 3 * ntrain
-    nq = int(t[qat])
-    qs = [t[qat + 1 + 2 * i:qat + 3 + 2 * i] for i in range(nq)]
+    # layout: head tokens, then groups of <count> <rows of `w` tokens>
+    if t[0] == "route":
+        nhead, widths, minrows = 9, [3, 3, 2], [2, 0, 0]
+    else:
+        nhead, widths, minrows = 5, [3, 2], [2, 0]
+    head = t[:nhead]
+    groups, at = [], nhead
+    for w in widths:
+        k = int(t[at])
+        groups.append([t[at + 1 + w * i:at + 1 + w * (i + 1)] for i in range(k)])
+        at += 1 + w * k
+    is_reg = (t[0] == "reg") or (t[0] == "route" and t[1] in REG_EVAS)
 
-    def mk(rs, q):
-        return " ".join(head + [str(len(rs))] + [x for r in rs for x in r] + [str(len(q))] + [x for r in q for x in r])
+    def mk(gs):
+        out = list(head)
+        for g in gs:
+            out.append(str(len(g)))
+            out += [x for r in g for x in r]
+        return " ".join(out)
 
     def fails(l, a):
+        if a.startswith("died"):
+            return sig[1] in ("asan", "ubsan", "crash")
         return any((tg.get("model"), tg.get("kind")) == sig for _, tg in oracle(l, a))
 
-    for which in (0, 1):
-        items = rows if which == 0 else qs
+    for which in range(len(groups)):
+        items = groups[which]
         chunk = max(1, len(items) // 2)
         rounds = 0
-        while chunk >= 1 and rounds < 30 and len(items) > (2 if which == 0 else 0):
+        while chunk >= 1 and rounds < 30 and len(items) > minrows[which]:
             rounds += 1
             cands = []
-            for s in range(0, len(items), chunk):
-                it = items[:s] + items[s + chunk:]
-                if which == 0 and (len(it) < 2 or (t[0] != "reg" and len({r[0] for r in it}) < 2)):
+            for s0 in range(0, len(items), chunk):
+                it = items[:s0] + items[s0 + chunk:]
+                if which == 0 and (len(it) < 2 or (not is_reg and len({r[0] for r in it}) < 2)):
                     continue
                 cands.append(it)
             if not cands:
                 chunk //= 2
                 continue
-            ls = [mk(it, qs) if which == 0 else mk(rows, it) for it in cands]
-            cpp, _ = C.run_lines(exe, ls)
+            ls = [mk(groups[:which] + [it] + groups[which + 1:]) for it in cands]
             hit = None
-            for i, l in enumerate(ls):
-                if i < len(cpp) and fails(l, cpp[i]):
-                    hit = cands[i]
-                    break
+            if sig[1] in ("asan", "ubsan", "crash"):
+                for i, l in enumerate(ls):       # a dying harness: one candidate per process
+                    a, d = run_h(exe, [l])
+                    if d:
+                        hit = cands[i]
+                        break
+            else:
+                cpp, _ = run_h(exe, ls)
+                for i, l in enumerate(ls):
+                    if i < len(cpp) and fails(l, cpp[i]):
+                        hit = cands[i]
+                        break
             if hit is None:
                 if chunk == 1:
                     break
                 chunk //= 2
             else:
                 items = hit
-                if which == 0:
-                    rows = hit
-                else:
-                    qs = hit
+                groups[which] = hit
                 chunk = min(chunk, max(1, len(items) // 2))
-    return mk(rows, qs)
+    return mk(groups)
+
+
+def regenerate(broken):
+    """lean/Vita/C08/GenStorage.lean from the clang AST of the current tree (cached by tree hash)"""
+    import hashlib
+    gen = os.path.join(C.LEAN, "Vita", "C08", "GenStorage.lean")
+    tool = os.path.join(C.ROOT, "tools", "translate_c08_storage.py")
+    tu = os.path.join(C.ROOT, "tools", "tu", "c08_storage_tu.cc")
+    key = C.repo_tree_hash(open(tool).read() + open(tu).read() + open(os.path.join(C.ROOT, "tools", "cxx2lean.py")).read())
+    stamp = os.path.join(C.BUILD, "c08_gen.stamp")
+    if os.path.exists(stamp) and os.path.exists(gen):
+        old = open(stamp).read().split("\n")
+        if len(old) == 2 and old[0] == key and old[1] == hashlib.sha256(open(gen, "rb").read()).hexdigest():
+            return
+    rc, so, se = C.sh([sys.executable, tool])
+    if rc != 0:
+        broken.append("the storage translator refuses the current source (the special member functions of "
+                      "reg_lambda_f_storage / a lambdify have a shape the lifetime model does not cover): " + se.strip()[-600:])
+        if os.path.exists(stamp):
+            os.remove(stamp)
+        return
+    os.makedirs(C.BUILD, exist_ok=True)
+    with open(stamp, "w") as f:
+        f.write(key + "\n" + hashlib.sha256(open(gen, "rb").read()).hexdigest())
 
 
 def run(chk, replay=None):
     rng = C.SplitMix(chk.seed)
     broken = []
+    regenerate(broken)
     ok, out = C.lake_build(["c08_driver"])
     drv_ok = ok
     if not ok:
@@ -552,7 +758,11 @@ def run(chk, replay=None):
     if not ok:
         broken.append("theorems of Vita.C08.Props no longer check: " + msg)
 
-    exe = C.build_harness("c08_model", "asan")
+    import concurrent.futures as cf
+    os.makedirs(TMPDIR, exist_ok=True)
+    C.build_vita("asan")
+    with cf.ThreadPoolExecutor(2) as ex:
+        exes = list(ex.map(lambda n: C.build_harness(n, "asan"), ["c08_model", "c08_routes"]))
 
     lines = []
     if replay:
@@ -565,24 +775,55 @@ def run(chk, replay=None):
                 if ln and not ln.startswith("#"):
                     lines.append(ln)
         chk.cov["corpus_cases"] = len(lines)
+        lines += gen_routes(chk, rng)
         lines += gen_cases(chk, rng)
 
     # batches keep the ASan quarantine of one harness process small; three of them run at a time
     B = 1500
-    batches = [lines[k:k + B] for k in range(0, len(lines), B)]
-    import concurrent.futures as cf
+    batches = []          # (exe, [indices])
+    for which in (1, 0):
+        idx = [i for i, l in enumerate(lines) if (exe_for(exes, l) is exes[which])]
+        bsz = 350 if which == 1 else B
+        batches += [(exes[which], idx[k:k + bsz]) for k in range(0, len(idx), bsz)]
     with cf.ThreadPoolExecutor(3) as ex:
-        res = list(ex.map(lambda b: C.run_lines(exe, b), batches))
-    cpp, deaths = [], []
-    for k, (a, d) in enumerate(res):
-        cpp += a + ["skipped"] * (len(batches[k]) - len(a))
-        deaths += [(k * B + i, rc, se) for i, rc, se in d]
-    for idx, rc, se in deaths:
+        res = list(ex.map(lambda b: run_h(b[0], [lines[i] for i in b[1]]), batches))
+    cpp, deaths = ["skipped"] * len(lines), []
+    for (_, idx), (a, d) in zip(batches, res):
+        for k, i in enumerate(idx):
+            if k < len(a):
+                cpp[i] = a[k]
+        deaths += [(idx[i], rc, se) for i, rc, se in d]
+    dead_seen = set()
+    for idx, rc, se in sorted(deaths):
         t = lines[idx].split()
         kind = "asan" if "AddressSanitizer" in se else "ubsan" if "runtime error" in se else "crash"
-        chk.violation("harness died (rc=%d, %s) on: %s\n%s" % (rc, kind, lines[idx][:300], se[-2500:]),
-                      {"line": lines[idx], "stderr": se[-2500:]},
-                      tags={"model": t[0], "kind": kind, "team": t[3].startswith("t:"), "comp": t[1]})
+        if t[0] == "route":
+            model = "reg" if t[1] in REG_EVAS else t[1]
+            tags = {"model": model, "kind": kind, "team": t[3].startswith("t:"), "comp": "-",
+                    "route": t[6], "validator": t[5], "eva": t[1]}
+            site = "|".join(sorted({ln.split(" in ", 1)[1].split("(")[0].strip() for ln in se.splitlines()
+                                    if " in vita::" in ln and ("#1 " in ln or "#2 " in ln or "#0 " in ln)}))[:300]
+            tags["site"] = site
+        else:
+            tags = {"model": t[0], "kind": kind, "team": t[3].startswith("t:"), "comp": t[1]}
+        key = (tags["model"], kind, tags.get("route"), tags.get("validator"))
+        chk.count("harness_death:%s/%s" % (tags["model"], kind))
+        if key in dead_seen:
+            continue
+        dead_seen.add(key)
+        small = lines[idx]
+        if not replay:
+            small = shrink(exe_for(exes, small), small, (tags["model"], kind))
+            _, d2 = run_h(exe_for(exes, small), [small])
+            if d2:
+                se = d2[0][2]
+            else:
+                small = lines[idx]
+        chk.violation("harness died (rc=%d, %s) on: %s\n%s" % (rc, kind, small[:300], se[-2500:]),
+                      {"line": small, "stderr": se[-2500:],
+                       "how": "echo '<line>' | C08_TMPDIR=build/c08_tmp build/asan/%s   (or check.py C08 --replay <this file>)"
+                              % os.path.basename(exe_for(exes, small))},
+                      tags=tags)
     reqs = [lean_request(lines[i], cpp[i]) if i < len(cpp) and not cpp[i].startswith(("died", "skipped")) else None
             for i in range(len(lines))]
     lean = None
@@ -607,13 +848,22 @@ def run(chk, replay=None):
             chk.seen(line, nontrivial=False)
         else:
             team = t[3].startswith("t:")
-            chk.count(f"case:{t[0]}:{'team-' + t[1] if team else 'individual'}")
+            if t[0] == "route":
+                chk.count(f"route:{t[6]}:{t[5]}:{t[1]}:{'team' if team else 'individual'}")
+                chk.count(f"route_mode:{t[6]}")
+                chk.count("route_validation_rows:" + ("0" if t[9 + 1 + 3 * int(t[9])] == "0" else "some"))
+            else:
+                chk.count(f"case:{t[0]}:{'team-' + t[1] if team else 'individual'}")
             chk.seen(line)
             if not c.startswith("ok"):
                 chk.count("harness:" + c.split()[0])
                 broken.append(f"harness answered `{c[:200]}` to `{line[:200]}`")
                 continue
             p = parse(line, c)
+            if "ROUTE-TYPE" in p.flags:
+                chk.count("route_type_not_shipped")
+                broken.append(f"route `{t[6]}` ({t[1]}) returned a model that is not the storing flavour of the shipped alias "
+                              f"(no copy history could be run on it): `{line[:200]}`")
             chk.count("train_rows:" + ("2" if p.ntrain == 2 else "3-9" if p.ntrain < 10 else "10-59" if p.ntrain < 60 else "60+"))
             chk.count("predictions", p.n)
             chk.count("queries", p.nq)
@@ -623,13 +873,13 @@ def run(chk, replay=None):
                 cnt = {}
                 for l in p.labels:
                     cnt[l] = cnt.get(l, 0) + 1
-                if min(cnt.values()) == 1:
+                if cnt and min(cnt.values()) == 1:
                     chk.count("single_example_class")
             if all(x == "u" for x in p.mem):
                 chk.count("all_members_undefined")
             hs = p.hist.split()
-            if hs[0] == "ok":
-                chk.count("history_steps", int(hs[1]))
+            if hs and hs[0] == "ok":
+                chk.count("lifetime_steps" if p.route else "history_steps", int(hs[1]))
         for what, tags in oracle(line, c):
             sig = (tags.get("model"), tags.get("kind"))
             chk.count("oracle_fail:%s/%s" % sig)
@@ -637,16 +887,18 @@ def run(chk, replay=None):
                 continue
             reported.add(sig)
             small, ans = line, c
+            exe = exe_for(exes, line)
             if not replay:
                 small = shrink(exe, line, sig)
-                a2, _ = C.run_lines(exe, [small])
-                w2 = [w for w, tg in oracle(small, a2[0]) if (tg.get("model"), tg.get("kind")) == sig]
+                a2, _ = run_h(exe, [small])
+                w2 = [(w, tg) for w, tg in oracle(small, a2[0]) if (tg.get("model"), tg.get("kind")) == sig] if a2 else []
                 if w2:
-                    what, ans = w2[0], a2[0]
+                    (what, tags), ans = w2[0], a2[0]
                 else:
                     small = line
             chk.violation(what, {"line": small, "harness_answer": ans[:3000],
-                                 "how": "echo '<line>' | build/asan/c08_model   (or check.py C08 --replay <this file>)"},
+                                 "how": "echo '<line>' | C08_TMPDIR=build/c08_tmp build/asan/%s   (or check.py C08 --replay <this file>)"
+                                        % os.path.basename(exe)},
                           tags=tags)
         if lean is not None and lean[i] is not None and " nan" not in reqs[i]:
             want = cpp_canon(line, c)
@@ -662,7 +914,7 @@ def run(chk, replay=None):
     chk.cov["cases"] = len(lines)
 
     concrete = [v for v in chk.violations if not v[2]]
-    if broken and not concrete and not chk.known_hit:
+    if broken and not concrete:
         for b in broken[:3]:
             chk.violation(b, {"broken": b, "searched": f"{len(lines)} model objects judged by the property's own oracle "
                               "(model = interpreter / mean of defined outputs, label < classes, confidence range, accuracy "
@@ -671,12 +923,18 @@ def run(chk, replay=None):
         chk.notes += broken[:5]
     return chk.finish(
         level="proof",
-        checker_cmd="lake build Vita.C08.Props c08_driver && lake env lean <#print axioms for every theorem>",
-        rule="one evaluation = one (program or team, training set, queries) triple: the compiled model object answers all "
-             "rows, the Lean model (hardware doubles) must give the same labels / confidence bits / accuracy / training "
-             "fitness, the Python oracle judges the contract, and a random 12-23 step object history runs under ASan; "
-             "distinct = distinct input lines (discretization probes excluded)",
-        trusted=["Lean 4.33 kernel", "harness/c08_model.cc + this script (canonicalisation, oracle)",
-                 "the copy/assign/move/destroy/serialize clause is checked by the harness under ASan only (no Lean content)",
+        checker_cmd="python3 tools/translate_c08_storage.py && lake build Vita.C08.Props c08_driver && lake env lean <#print axioms for every theorem>",
+        rule="one evaluation = one (program or team, training set, queries) triple, or one ROUTE case (evaluator, validation "
+             "strategy, cache, training + validation rows, queries, what happens to the original individual): the compiled "
+             "model object - constructed directly or obtained through the route - answers all rows, the Lean model (hardware "
+             "doubles; fitness through C05's end-to-end evaluator models) must give the same labels / confidence bits / accuracy "
+             "/ training fitness, the Python oracle judges the contract against the TRAINING data, a random 12-23 step object "
+             "history (cases) or overwrite / move / destroy of the original individual (routes) runs under ASan; the special "
+             "member functions and the lambdify routes are re-translated from the clang AST and the lifetime obligations "
+             "re-proved; distinct = distinct input lines (discretization probes excluded)",
+        trusted=["Lean 4.33 kernel", "harness/c08_model.cc, harness/c08_routes.cc + this script (canonicalisation, oracle)",
+                 "tools/translate_c08_storage.py (clang-14 AST -> table of special member functions / routes; C++ rules for "
+                 "implicit members applied by the translator)",
                  "glibc libm (atan, exp, fma, round) shared by the harness and the Lean runtime",
+                 "ConfLaws / DiscLaws: IEEE-754 and libm facts as hypotheses of the _ieee theorems",
                  "the per-member program outputs come from vita's interpreter (C01's subject)"])
